@@ -20,12 +20,12 @@ REPO = os.environ.get("FORSYS_REPO", "/repo")
 PID = "C09"
 RULE = ("states = meshes reachable from a parser output by histories over {generate_mesh x8, Frame, hold, release, gc, remove_cell x2}; de-duplicated on the full mesh snapshot; "
         "non-trivial = history contains an edit; classes = (source, vertices, edges, cells, history signature)")
-BOUND = {"quick": "depth 3 from 17 initial meshes (WKT polygons with two nearly coincident corners, direct k=0/k=2, SE dump, WKT, tessellation, sub-tissue with hole, lens, rasterised skeletons: minimal, non-minimal, with reduce_amount, with a detached ring / pair of cells) + depth 2 from every connected sub-tissue of a 7-cell base (k=0 and k=2) + depth 1 from the skeleton raster with ONE staircase corner (an L-shaped step on an interface), for every one of its 220 possible positions",
+BOUND = {"quick": "depth 3 from 17 initial meshes (WKT polygons with two nearly coincident corners, direct k=0/k=2, SE dump, WKT, tessellation, sub-tissue with hole, lens, rasterised skeletons: minimal, non-minimal, with reduce_amount, with a detached ring / pair of cells) + depth 2 from every connected sub-tissue of a 7-cell base (k=0 and k=2) + depth 1 from the skeleton raster with ONE staircase corner (an L-shaped step on an interface), for every one of its 220 possible positions, and from label-boundary skeletons of 3 unfiltered scattered site sets in all 8 orientations",
          "thorough": "depth 4 from 8 initial meshes, depth 2 from every sub-tissue of an 11-cell base, shipped dumps and skeleton depth 2; depth 2 from every single-staircase-corner variant of two rasters, depth 1 from every PAIR of staircase corners of the smaller raster (1653 images)"}
 ASSUMPTIONS = ["Vertex.own_big_edges is not constrained by the statement (reported as a diagnostic only)",
                "a call that raises leaves no state; SegmentationArtifactException (and the ValueError that chained contractions produce) is a refusal, not a verdict",
                "holding a shallow copy of the dictionaries models a user who keeps the previous mesh alive (so that __del__ of replaced objects runs late)"]
-REQUIRED_TAGS = {"all": ["resampled", "framed", "contracted", "source:direct", "source:se", "source:wkt", "source:tess", "source:raster", "held", "artefact_triangle", "staircase_corner", "detached_piece", "nearly_coincident_corners", "cell_removed"]}
+REQUIRED_TAGS = {"all": ["resampled", "framed", "contracted", "source:direct", "source:se", "source:wkt", "source:tess", "source:raster", "held", "artefact_triangle", "staircase_corner", "detached_piece", "nearly_coincident_corners", "cell_removed", "label_boundary_skeleton"]}
 
 GM = [[ne, rse] for ne in (2, 3, 6, 12) for rse in (True, False)]
 OPS = [["gm"] + g for g in GM] + [["frame"], ["hold"], ["release"], ["gc"], ["rmcell", 0], ["rmcell", -1]]
@@ -186,6 +186,35 @@ def initial_mesh(src):
             return sk.create_lattice(reduce_amount=True) if len(src) > 3 and src[3] == "reduce" else sk.create_lattice()
         finally:
             os.remove(path)
+    if kind == "raster_labels":
+        # label-boundary skeleton (what a watershed segmentation delivers) of an UNFILTERED scattered site set - irregular cells,
+        # short walls, many L-shaped junction triples - under one of the 8 symmetries of the square
+        import math
+        import forsys.skeleton as fsk
+        from PIL import Image
+        from fsmc.ref import raster as RR
+        from checks import c15
+        n, pat, scale = src[1]
+        pts = []
+        for idx in range(n):
+            u = math.modf(abs(math.sin((idx + 1) * 12.9898 + pat * 78.233) * 43758.5453))[0]
+            w = math.modf(abs(math.sin((idx + 1) * 39.3468 + pat * 11.135) * 24634.6345))[0]
+            pts.append((u * 6.0, w * 6.0))
+        img, _ = RR.raster(np.array(pts), scale, style="labels")
+        img = np.rot90(img, src[2] % 4)
+        img = img.T if src[2] >= 4 else img
+        full = np.zeros((img.shape[0] + 4, img.shape[1] + 4), np.uint8)
+        full[2:-2, 2:-2] = img * 255
+        full[0, :] = 255
+        full[-1, :] = 255
+        full[:, 0] = 255
+        full[:, -1] = 255
+        path = os.path.join(c15.tmpdir(), "c09_%d_%s.tif" % (os.getpid(), fsutil.state_hash(src)))
+        Image.fromarray(full).convert("RGB").save(path)
+        try:
+            return fsk.Skeleton(path).create_lattice()
+        finally:
+            os.remove(path)
     if kind == "skeleton":
         import forsys.skeleton as fsk
         sk = fsk.Skeleton(src[1])
@@ -216,7 +245,9 @@ class MeshHistories:
         import forsys.frames as ff
         from forsys.exceptions import SegmentationArtifactException
         src = self.sources[d["s"]]
-        tags = ["source:%s" % {"se_file": "se", "raster_corner": "raster", "raster_iso": "raster", "wkt_pinch": "wkt"}.get(src[0], src[0])]
+        tags = ["source:%s" % {"se_file": "se", "raster_corner": "raster", "raster_iso": "raster", "wkt_pinch": "wkt", "raster_labels": "raster"}.get(src[0], src[0])]
+        if src[0] == "raster_labels":
+            tags.append("label_boundary_skeleton")
         if src[0] == "wkt_pinch":
             tags.append("nearly_coincident_corners")
         if src[0] == "raster_iso":
@@ -340,8 +371,10 @@ def build(tier, seed):
     light = [["gm", 2, True], ["gm", 6, True], ["gm", 3, False], ["frame"], ["hold"], ["release"], ["rmcell", 0], ["rmcell", -1]]
     spec = [5, 4, 15, 0, 40]
     corners = [["raster_corner", spec, i] for i in range(n_staircase_corners(spec))]
+    labels = [["raster_labels", [36, pat, 28], sym] for pat in (36, 3, 17) for sym in range(8)]
     if tier == "quick":
         return [MeshHistories("parsers-depth3", few, 3),
+                MeshHistories("label-boundary-skeletons-depth1", labels, 1, [["gm", 4, True], ["frame"]]),
                 MeshHistories("staircase-corners-all-depth1", corners, 1, [["gm", 4, True], ["gm", 2, False], ["frame"]]),
                 MeshHistories("subtissues-depth2", [["direct", "v5x4", S, k] for S in subs for k in (0, 2)], 2, light)]
     subs2 = T.connected_subsets(bases.get("v5x5"), min_size=1)
@@ -355,6 +388,7 @@ def build(tier, seed):
     pairs = [["raster_corner", spec2, [i, j]] for i in range(n2) for j in range(i + 1, n2)]
     return [MeshHistories("parsers-depth4", more, 4),
             MeshHistories("staircase-corners-all-depth2", corners, 2, light),
+            MeshHistories("label-boundary-skeletons-depth2", labels + [["raster_labels", [36, pat, 28], sym] for pat in range(40, 52) for sym in range(8)], 2, light),
             MeshHistories("staircase-corner-pairs-all-depth1", pairs, 1, [["gm", 4, True], ["frame"]]),
             MeshHistories("subtissues-depth2", [["direct", "v5x5", S, k] for S in subs2 for k in (0, 2)], 2, light),
             MeshHistories("shipped-depth2", files, 2, light)]
